@@ -4,4 +4,5 @@
 //verif:pkg revocation
 //verif:include ../C11/orch.go
 //verif:harness H_C06_orch
+//verif:harness H_C06_orch_long thorough-only
 package revocation
